@@ -75,11 +75,15 @@ def main():
     dst = os.path.join(ROOT, "seeded", name)
     os.makedirs(dst, exist_ok=True)
     for f in ("patch.diff", "demo.py", "notes.md"):
-        if os.path.exists(os.path.join(out, f)):
+        if os.path.exists(os.path.join(out, f)) and os.path.abspath(os.path.join(out, f)) != os.path.abspath(os.path.join(dst, f)):
             shutil.copy(os.path.join(out, f), os.path.join(dst, f))
     if os.path.exists(os.path.join(dst, "meta.json")):
         old = json.load(open(os.path.join(dst, "meta.json")))
         meta["history"] = old.get("history", []) + [{"checks": old.get("checks"), "detected_by": old.get("detected_by")}]
+    if os.path.exists(os.path.join(dst, "meta.json")):
+        for k in ("breaks_property", "needs_to_manifest"):
+            if k in old:
+                meta[k] = old[k]
     json.dump(meta, open(os.path.join(dst, "meta.json"), "w"), indent=1)
     print("detected by:", meta["detected_by"])
 
